@@ -148,13 +148,15 @@ theorem length_le_renderTags (tags : List Tag) : tags.length ≤ (renderTags tag
   | nil => simp [renderTags]
   | cons t r ih => simp [renderTags, length_tag]; omega
 
-/-- behind the ID3 tags and the junk, the first sync the search yields is the first frame -/
-theorem lead_scan (p : Lead) (ok : p.OK) (h : Hdr) (X : Bytes) :
-    ∃ rest, syncScan (p.render ++ (h.bytes ++ X)) (skipId3 (p.render ++ (h.bytes ++ X)) ((p.render ++ (h.bytes ++ X)).length + 1) 0)
-      (1024 * 1024) = p.render.length :: rest := by
+/-- behind the ID3 tags and the junk, the first sync the search yields is the first frame — from any offset `pre.length`
+at which the tags begin -/
+theorem lead_scan_at (pre : Bytes) (p : Lead) (ok : p.OK) (h : Hdr) (X : Bytes) :
+    ∃ rest, syncScan (pre ++ (p.render ++ (h.bytes ++ X)))
+      (skipId3 (pre ++ (p.render ++ (h.bytes ++ X))) ((pre ++ (p.render ++ (h.bytes ++ X))).length + 1) pre.length)
+      (1024 * 1024) = (pre.length + p.render.length) :: rest := by
   obtain ⟨htags, hid, hns, hjl⟩ := ok
   obtain ⟨y, r, hb, hy, hr⟩ := hdr_shape h
-  have hfile : p.render ++ (h.bytes ++ X) = [] ++ (renderTags p.tags ++ (p.junk ++ (0xFF :: y :: (r ++ X)))) := by
+  have hfile : pre ++ (p.render ++ (h.bytes ++ X)) = pre ++ (renderTags p.tags ++ (p.junk ++ (0xFF :: y :: (r ++ X)))) := by
     simp [Lead.render, hb, List.append_assoc]
   have hY : (p.junk ++ (0xFF :: y :: (r ++ X))).take 3 ≠ [0x49, 0x44, 0x33] := by
     intro hc
@@ -163,20 +165,25 @@ theorem lead_scan (p : Lead) (ok : p.OK) (h : Hdr) (X : Bytes) :
     | [a] => rw [hj] at hc; simp at hc
     | [a, b] => rw [hj] at hc; simp at hc
     | a :: b :: c :: t => rw [hj] at hc hid; simp at hc hid; exact hid hc.1 hc.2.1 hc.2.2
-  have hskip := skipId3_tags p.tags [] (p.junk ++ (0xFF :: y :: (r ++ X))) ((p.render ++ (h.bytes ++ X)).length + 1) htags
+  have hskip := skipId3_tags p.tags pre (p.junk ++ (0xFF :: y :: (r ++ X))) ((pre ++ (p.render ++ (h.bytes ++ X))).length + 1) htags
     (by have := length_le_renderTags p.tags; simp [Lead.render]; omega) hY
   rw [← hfile] at hskip
-  simp only [List.length_nil, Nat.zero_add] at hskip
   rw [hskip]
   unfold syncScan
-  have hdrop : (p.render ++ (h.bytes ++ X)).drop (renderTags p.tags).length = p.junk ++ (0xFF :: y :: (r ++ X)) := by
-    rw [hfile]; simp
+  have hdrop : (pre ++ (p.render ++ (h.bytes ++ X))).drop (pre.length + (renderTags p.tags).length) = p.junk ++ (0xFF :: y :: (r ++ X)) := by
+    rw [hfile, ← List.drop_drop, List.drop_left, List.drop_left]
   rw [hdrop]
-  have hlen : (p.render ++ (h.bytes ++ X)).length - (renderTags p.tags).length = p.junk.length + (2 + r.length + X.length) := by
+  have hlen : (pre ++ (p.render ++ (h.bytes ++ X))).length - (pre.length + (renderTags p.tags).length) = p.junk.length + (2 + r.length + X.length) := by
     rw [hfile]; simp; omega
-  obtain ⟨rest, hrest⟩ := scan_junk p.junk y (r ++ X) (renderTags p.tags).length
-    (min (1024 * 1024) ((p.render ++ (h.bytes ++ X)).length - (renderTags p.tags).length)) hns hy (by rw [hlen]; omega)
-  exact ⟨rest, by rw [hrest]; simp [Lead.render]⟩
+  obtain ⟨rest, hrest⟩ := scan_junk p.junk y (r ++ X) (pre.length + (renderTags p.tags).length)
+    (min (1024 * 1024) ((pre ++ (p.render ++ (h.bytes ++ X))).length - (pre.length + (renderTags p.tags).length))) hns hy (by rw [hlen]; omega)
+  exact ⟨rest, by rw [hrest]; simp [Lead.render]; omega⟩
+
+theorem lead_scan (p : Lead) (ok : p.OK) (h : Hdr) (X : Bytes) :
+    ∃ rest, syncScan (p.render ++ (h.bytes ++ X)) (skipId3 (p.render ++ (h.bytes ++ X)) ((p.render ++ (h.bytes ++ X)).length + 1) 0)
+      (1024 * 1024) = p.render.length :: rest := by
+  have := lead_scan_at [] p ok h X
+  simpa using this
 
 /-! ### frames -/
 
@@ -238,37 +245,55 @@ theorem mpegFrame_plain (f : Bytes) (pos : Nat) (fr : Spec.Mp3.Frame) (after : B
 
 theorem drop_at (A B : Bytes) : (A ++ B).drop A.length = B := List.drop_left
 
-theorem parse_cbr (c : Cbr) (ok : c.OK) : parse c.build = .ok c.expected := by
+theorem drop_at2 (P A B : Bytes) : (P ++ (A ++ B)).drop (P.length + A.length) = B := by
+  rw [← List.drop_drop, List.drop_left, List.drop_left]
+
+/-- the length estimate does not see what precedes the offset -/
+theorem size_shift (pre b : Bytes) (l o : Nat) (ho : pre.length + l = o) :
+    ((pre ++ b).length : Int) - (o : Nat) = (b.length : Int) - (l : Nat) := by
+  subst ho; simp only [List.length_append]; omega
+
+theorem parse_cbr_at (pre : Bytes) (c : Cbr) (ok : c.OK) :
+    parseFrom (pre ++ c.build) pre.length = .ok { c.expected with frameOffset := pre.length + c.lead.render.length } := by
   obtain ⟨hlead, p1, p2, p3, p4⟩ := ok
   have hb : c.build = c.lead.render ++ (c.f1.hdr.bytes ++ (c.f1.body ++ (c.f2.render ++ (c.f3.render ++ (c.f4.render ++ c.trailing))))) := by
     simp [Cbr.build, Spec.Mp3.Frame.render, List.append_assoc]
-  obtain ⟨rest, hscan⟩ := lead_scan c.lead hlead c.f1.hdr (c.f1.body ++ (c.f2.render ++ (c.f3.render ++ (c.f4.render ++ c.trailing))))
+  obtain ⟨rest, hscan⟩ := lead_scan_at pre c.lead hlead c.f1.hdr (c.f1.body ++ (c.f2.render ++ (c.f3.render ++ (c.f4.render ++ c.trailing))))
   rw [← hb] at hscan
   -- the four frames
-  generalize ho : c.lead.render.length = o at *
-  have d1 : c.build.drop o = c.f1.render ++ (c.f2.render ++ (c.f3.render ++ (c.f4.render ++ c.trailing))) := by
-    rw [← ho]; exact drop_at _ _
-  have d2 : c.build.drop (o + c.f1.render.length) = c.f2.render ++ (c.f3.render ++ (c.f4.render ++ c.trailing)) := by
+  have hE := size_shift pre c.build c.lead.render.length _ rfl
+  generalize ho : pre.length + c.lead.render.length = o at *
+  have d1 : (pre ++ c.build).drop o = c.f1.render ++ (c.f2.render ++ (c.f3.render ++ (c.f4.render ++ c.trailing))) := by
+    rw [← ho]; exact drop_at2 _ _ _
+  generalize hF : pre ++ c.build = F at *
+  have d2 : F.drop (o + c.f1.render.length) = c.f2.render ++ (c.f3.render ++ (c.f4.render ++ c.trailing)) := by
     rw [← List.drop_drop, d1]; exact drop_at _ _
-  have d3 : c.build.drop (o + c.f1.render.length + c.f2.render.length) = c.f3.render ++ (c.f4.render ++ c.trailing) := by
+  have d3 : F.drop (o + c.f1.render.length + c.f2.render.length) = c.f3.render ++ (c.f4.render ++ c.trailing) := by
     rw [← List.drop_drop, d2]; exact drop_at _ _
-  have d4 : c.build.drop (o + c.f1.render.length + c.f2.render.length + c.f3.render.length) = c.f4.render ++ c.trailing := by
+  have d4 : F.drop (o + c.f1.render.length + c.f2.render.length + c.f3.render.length) = c.f4.render ++ c.trailing := by
     rw [← List.drop_drop, d3]; exact drop_at _ _
-  have m1 := mpegFrame_plain c.build _ c.f1 _ d1 p1
-  have m2 := mpegFrame_plain c.build _ c.f2 _ d2 p2
-  have m3 := mpegFrame_plain c.build _ c.f3 _ d3 p3
-  have m4 := mpegFrame_plain c.build _ c.f4 _ d4 p4
-  have htf : takeFrames c.build 4 o = .ok
+  have m1 := mpegFrame_plain F _ c.f1 _ d1 p1
+  have m2 := mpegFrame_plain F _ c.f2 _ d2 p2
+  have m3 := mpegFrame_plain F _ c.f3 _ d3 p3
+  have m4 := mpegFrame_plain F _ c.f4 _ d4 p4
+  have htf : takeFrames F 4 o = .ok
       [{ offset := o, h := infoOf c.f1.hdr, bitrate := .int c.f1.hdr.bitrate },
        { offset := o + c.f1.render.length, h := infoOf c.f2.hdr, bitrate := .int c.f2.hdr.bitrate },
        { offset := o + c.f1.render.length + c.f2.render.length, h := infoOf c.f3.hdr, bitrate := .int c.f3.hdr.bitrate },
        { offset := o + c.f1.render.length + c.f2.render.length + c.f3.render.length, h := infoOf c.f4.hdr, bitrate := .int c.f4.hdr.bitrate }] := by
     simp only [takeFrames, m1, m2, m3, m4, Bool.not_true, Bool.false_eq_true, ↓reduceIte]
-  unfold parse
+  unfold parseFrom
   simp only [hscan, syncLoop, htf]
   simp only [show ¬ (1500 ≤ 1) by decide, ↓reduceIte, List.length_cons, List.length_nil, List.head?_cons, List.getLast?,
     Option.isNone_none, and_self, ge_iff_le, Nat.le_refl, Nat.reduceLeDiff, Bool.not_true, Bool.false_eq_true]
-  simp only [Cbr.expected, headerInfo, infoOf, ho, Option.getD]
-  rfl
+  refine Eq.trans (b := .ok (headerInfo c.f1.hdr o (.div (.int (8 * ((F.length : Int) - (o : Nat)))) (.flt (.int c.f1.hdr.bitrate))))) ?_ ?_
+  · simp only [headerInfo, infoOf, Option.getD]
+    rfl
+  · rw [hE]; rfl
+
+theorem parse_cbr (c : Cbr) (ok : c.OK) : parse c.build = .ok c.expected := by
+  have h := parse_cbr_at [] c ok
+  simp only [List.nil_append, List.length_nil, Nat.zero_add] at h
+  exact h
 
 end Mutagen.Info.Mp3
